@@ -84,9 +84,16 @@ impl Report {
     /// Record a violation (the first one wins).
     pub fn fail(&mut self, class: impl Into<String>, detail: impl Into<String>) {
         if self.violation.is_none() {
+            let mut detail: String = detail.into();
+            if detail.len() > 20_000 {
+                // (a command line of megabytes does not belong in a report)
+                let cut = (0..=20_000).rev().find(|i| detail.is_char_boundary(*i)).unwrap_or(0);
+                detail.truncate(cut);
+                detail.push_str(" …(truncated)");
+            }
             self.violation = Some(Violation {
                 class: class.into(),
-                detail: detail.into(),
+                detail,
             });
         }
     }
